@@ -100,14 +100,19 @@ def runSql (c : Case) : CaseOut := Id.run do
   let mut emits : List SessSpec.Ev := []
   let mut bad : Option String := none
   let mut mops : List Session.Op := []
+  let lateCfg := cfgInt c "late" 0
+  let mut delivered : List (Key × Int × Int × List Nat) := []
+  let mut mustShow : List Nat := []      -- late rows sent after their session had reached the sink, well inside the allowance
   for (op, implObs) in c.ops do
     match op with
-    | ["row", id, ts, k] =>
-      let t := if ts == "none" then none else (parseInt ts).map (· * ms)
-      evs := evs ++ [SessSpec.Ev.arr ((unhex k).getD []) ((parseNat id).getD 0) t]
-      mops := mops ++ [match t with
-        | some t => Session.Op.add ((unhex k).getD []) { id := (parseNat id).getD 0, ts := t } 0
-        | none => Session.Op.addNoTs]
+    | [kind, id, ts, k] =>
+      if kind == "row" || kind == "late" then
+        let t := if ts == "none" then none else (parseInt ts).map (· * ms)
+        evs := evs ++ [SessSpec.Ev.arr ((unhex k).getD []) ((parseNat id).getD 0) t]
+        mops := mops ++ [match t with
+          | some t => Session.Op.add ((unhex k).getD []) { id := (parseNat id).getD 0, ts := t } 0
+          | none => Session.Op.addNoTs]
+        if kind == "late" then mustShow := mustShow ++ [(parseNat id).getD 0]
     | ["flush"] =>
       for l in implObs do
         match l with
@@ -116,10 +121,33 @@ def runSql (c : Case) : CaseOut := Id.run do
           if (parseNat cnt).getD 0 != idl.length && bad.isNone then bad := some "count-differs-from-rows-of-the-session"
           if (parseNat sum).getD 0 != idl.foldl (· + ·) 0 && bad.isNone then bad := some "sum-differs-from-rows-of-the-session"
           if wid != "t" && bad.isNone then bad := some "window_id-not-start_end"
-          emits := emits ++ [SessSpec.Ev.emit false ((unhex k).getD []) ((parseInt ws).getD 0) ((parseInt we).getD 0) idl]
+          let key := (unhex k).getD []
+          let a := (parseInt ws).getD 0
+          let b := (parseInt we).getD 0
+          match delivered.find? (fun d => d.1 == key && d.2.1 == a && d.2.2.1 == b) with
+          | some d =>
+            -- a session delivered before: a late update (ALLOWEDLATENESS > 0) = previous rows, then the late row(s)
+            let prev := d.2.2.2
+            let extra := idl.drop prev.length
+            if lateCfg ≤ 0 && bad.isNone then bad := some "session-delivered-twice-without-allowance"
+            if idl.take prev.length != prev && bad.isNone then bad := some "re-delivery-does-not-start-with-previous-rows"
+            if extra.isEmpty && bad.isNone then bad := some "re-delivery-without-the-late-row"
+            let okExtra := extra.all fun i => evs.any fun e => match e with
+              | .arr k' i' (some t) => i' == i && k' == key && decide (a ≤ t) && decide (t < b)
+              | _ => false
+            if (!okExtra || idl.eraseDups.length != idl.length) && bad.isNone then bad := some "re-delivery-row-not-of-this-session"
+            delivered := delivered.map (fun x => if x.1 == key && x.2.1 == a && x.2.2.1 == b then (key, a, b, idl) else x)
+          | none =>
+            delivered := delivered ++ [(key, a, b, idl)]
+            emits := emits ++ [SessSpec.Ev.emit false key a b idl]
         | ["sentinel-lost"] => if bad.isNone then bad := some "sentinel-session-never-delivered"
+        | ["await-timeout"] => if bad.isNone then bad := some "awaited-session-never-delivered"
         | _ => if bad.isNone then bad := some "unreadable-result-line"
     | _ => pure ()
+  if bad.isNone then
+    match mustShow.find? (fun i => !(delivered.any fun d => d.2.2.2.contains i)) with
+    | some _ => bad := some "late-row-inside-allowance-not-redelivered"
+    | none => pure ()
   let scfg : SessSpec.Cfg := { timeout := timeout, ooo := 0, lateness := 0, now := 1700000000000000000 }
   let spec := match bad with
     | some b => "fail:" ++ b
